@@ -8,6 +8,9 @@ T = {
  "C01-2": ("C01", "lz_encoder.rs MOVE_BLOCK_ALIGN 64 -> 8", "pb=4 or lp=4, a window move, and a move offset that is 8 mod 16"),
  "C01-3": ("C01", "encoder.rs LZMA2_UNCOMPRESSED_LIMIT (2<<20)-273 -> (2<<20)-272", "a chunk whose running size is exactly 2096880 followed by a 273-byte match (about 2 MiB of highly compressible data)"),
  "C01-4": ("C01", "lz_encoder.rs move_window offset rounded up instead of down", "Fast mode, near-maximum-distance match probed right after a window move"),
+ "C01-5": ("C01", "lz/hash234.rs Hash234::normalize renormalises hash2_table twice and hash3_table never (copy-paste slip)", "the match finder's lz_pos must reach 0x7FFFFFFF (about 2 GiB through one encoder), then ordinary data: stale hash3 entry gives a negative delta3, encoder panics"),
+ "C01-6": ("C01", "lzma2_writer.rs write_uncompressed no longer sets state_reset_needed (cooperates with lzma.reset() in write_chunk)", "LZMA chunk, then >= 64 KiB incompressible data stored uncompressed, then compressible data"),
+ "C01-7": ("C01", "lzma2_reader.rs decode_chunk_header `control >= 0xC0` -> `control > 0xC0`", "first LZMA chunk with control byte exactly 0xC0 (preset dictionary + small input, or incompressible start + short compressible tail)"),
  "C02-1": ("C02", "lzip.rs encode_dict_size rounds the fraction to nearest", "dictionary size not exactly representable with remainder >= half a unit, and a match beyond the announced size"),
  "C02-2": ("C02", "xz/reader.rs Index::parse uses the min(1024) clamp as loop bound", "an XZ stream with more than 1024 blocks"),
  "C02-3": ("C02", "xz/writer.rs SharedWriter::write counts buf.len() instead of the accepted bytes", "a sink that returns short writes, over-count not a multiple of 4"),
@@ -49,6 +52,15 @@ T = {
  "C17-3": ("C17", "bt4.rs get_mem_usage `dict_size * 8 / 1024` (u32 overflow)", "BT4 with dict_size >= 2^29"),
  "C18-1": ("C18", "lzma_writer.rs finish(): expected-size check skipped when an end marker is used", "5-argument LZMAWriter::new with header + end marker + Some(n), fewer than n bytes written"),
  "C18-2": ("C18", "lzip/writer.rs member size raised to dict_size.next_power_of_two()", "non-power-of-two dictionary, member size below the next power of two"),
+ "C16-4": ("C16", "xz/reader.rs Index::parse: index byte count for the padding starts from the constant 2 instead of 1 + varint_size(count)", "an XZ stream with 128 or more blocks (record count needs a 2-byte varint)"),
+ "C16-5": ("C16", "lz_decoder.rs copy_uncompressed: read_exact replaced by read, byte count ignored", "a stored LZMA2 chunk AND a source that returns a short read inside that chunk"),
+ "C16-6": ("C16", "lzma2_reader.rs decode_chunk_header `control >= 0xC0` -> `control > 0xC0` (props byte not read)", "an LZMA chunk whose control byte is exactly 0xC0 (new props, no dict reset, <= 64 KiB): stored chunks followed by a short compressible tail"),
+ "C04-4": ("C04", "xz/reader.rs try_start_next_stream: EOF inside the magic of a following stream returns Ok(false) instead of Err", "multi-stream on, >= 2 streams, file cut 1..=5 bytes into a later stream's magic"),
+ "C04-5": ("C04", "lzip/reader_mt.rs scan_members: a member start without the LZIP magic ends the scan with break instead of Err", "MT reader, >= 2 members, damaged magic / trailer member_size of a member that is not the last"),
+ "C04-6": ("C04", "lzip.rs LZIPHeader::parse `version != 1` -> `version > 1` AND lzip/reader.rs start_next_member version check returns Ok(false) (two cooperating sites)", "version byte exactly 0: the file reads back as empty"),
+ "C13-1": ("C13", "lz_encoder.rs LZEncoder::new keep_size_after = extra_size_after + nice_len (instead of match_len_max)", "Normal mode, nice_len < 273, low-entropy data, an optimal-parser run deeper than 3823 + nice_len positions, small writes"),
+ "C13-2": ("C13", "lzma2_writer_mt.rs get_next_compressed_chunk: out_of_order_chunks.remove(next) -> pop_first()", ">= 2 workers, >= 2 units, unit k+1 finishing before unit k"),
+ "C13-3": ("C13", "lzip/writer.rs write: member clamp subtracts member_start_pos (always 0) instead of current_member_uncompressed_size", "member_size set, input longer than one member, a write call that straddles a member boundary"),
  "C18-3": ("C18", "lzma2_reader_mt.rs independent-chunk test drops `control == 0x01`", "MT reader, a later unit starting with a stored chunk; only chunk_count() is wrong"),
 }
 for name, (prop, what, needs) in T.items():
